@@ -4,6 +4,9 @@ import json, os
 V = "/verif"
 CLAIMED = {
  # id: (clause text, technique, level_note, design_ref)
+ "C03": ("Decides the structural mechanisms behind signature authorisation for every transaction at once: verification (for the context's tx and the node's chain id) dominates execution on the exec=true path with no bypass; the recovered address is compared in full with the sender; the signed pre-image is prefix(chainId,len) ++ RLP(tx) and its encoder covers every field of Trx and of every payload, with only widening integer conversions, full 256-bit values and single RLP items (so the encoding is injective in the executed fields); the wire decoder fills every executed field and reader/writer tables agree. It does not decide cryptographic strength.",
+         "SSA guard/dominance rules on the validation chain + AST/type field-coverage of the RLP encoders and proto decoders + conversion-width lint + sibling-table agreement (fromProto / DecodeRLP / Type())",
+         "trusted: go-ethereum rlp and SigToPub, SHA-256, protobuf; structural clause only (level other)", "DESIGN.md §3 C03"),
  "C09": ("Decides a necessary structural clause of 'no input can crash the node' for every path at once: over all module functions reachable from CheckTx/DeliverTx/Query, every explicit panic / Must* helper is a listed construct with its invariant; every payload type assertion without comma-ok sits where the tx-type dataflow admits only the payload type Trx.fromProto allocates; every slice/index on a slice has a dominating length bound or clamp; no result of a nil-with-error / may-return-nil function is dereferenced on the error branch or without a nil test, nor parked in a struct field while the function can still succeed; every integer division by a non-constant is guarded or carries a listed invariant. Panics inside dependencies are not covered.",
          "SSA dominance/guard analysis + interprocedural tx-type constant propagation + nil-with-error summaries over the repaired VTA call graph",
          "trusted: go/ssa, VTA call graph (closures of unreachable functions pruned), dependency code; exception tables in tool/c09.go, one resolved construct each with its invariant", "DESIGN.md §3 C09"),
